@@ -96,6 +96,13 @@ CHECKS = {
         "design_ref": "DESIGN.md section 4, C06",
         "level_note": E4_NOTE + " Proved relative to the in_unit axiom (C04). Not decided: rounding ties.",
     },
+    "C12": {
+        "engine": "E1+E4+E7",
+        "technique": "order-domain evaluation: the overlap predicate is extracted from the AST and evaluated on every weak ordering of the four interval bounds; dispatch matrix of the three __eq__ methods resolved through their isinstance arms and Python's reflected fallback; field-normalisation contradiction rule for __hash__; operator-consistency rule on ordering methods; comparison normal forms shared with C06",
+        "level_text": "Symmetry of Measurement equality is decided exhaustively over all 26 admissible weak orders (finite and complete: the predicate touches its arguments only through comparisons); for each of the 9 ordered type pairs both directions reduce to the same predicate on the same normalised operands; ordering methods use their own operator on every path; == and < compare physical values (C06). Quantity.__hash__ hashes fields that __eq__ normalises - a genuine defect pinned by the suite, recorded as a known finding, hence 'other'.",
+        "design_ref": "DESIGN.md section 4, C12",
+        "level_note": E4_NOTE + " Not decided: trichotomy / sorted() numerically at floating-point ties; overlap equality is not transitive by design.",
+    },
     "C14": {
         "engine": "E1+E4",
         "technique": "abstract interpretation of every Measurement operator to normal forms (rational functions with sqrt/abs heads); symbolic differentiation of the method's own measurand expression; units-of-measure typing of the stored uncertainty",
